@@ -46,6 +46,16 @@ CHECKS = {
              "TransformInPlace/SetCoords/Set and compared bit for bit.",
         note=NOTE_COMMON + "Heap model: arrays of cells with (array, offset, len, cap) slices; Go's runtime growth policy is a universally quantified parameter.",
     ),
+    "C03": dict(
+        technique="Lean 4 theorems (model writers = independent reference encoder for Point/LineString/Polygon in every byte order; u32 round trip; ReadFull chunk-invariance; writer-fault prefix) + Tie theorems over type words emitted by the real encoders + differential correspondence against model and reference encoder",
+        text="An independent reference encoder for ISO WKB and PostGIS EWKB over nested coordinates is the oracle for Go's bytes on every run; the Lean model "
+             "of the writers is proved equal to it for LineString and Polygon (all layouts, byte orders, sizes, empty rings) and count/type words are proved "
+             "to read back. io.ReadFull over any split of the input is proved to depend only on the concatenation, and write sequencing is proved never to "
+             "report success after a failed write while emitting a prefix. Type words emitted by the real encoders for all 28 type x layout pairs (and with "
+             "SRID) are regenerated each run and tied to the model by decide. Multi types, nested collections, hex and SQL wrappers are covered by the "
+             "executable model + reference encoder on generated inputs.",
+        note=NOTE_COMMON + "Partial: write=spec and decode(encode g)=g are theorems only for the non-recursive types; the recursive cases are decided per explored input.",
+    ),
 }
 
 _PENDING = "check not built yet in this session (work in progress; see DESIGN.md §9 build order)"
